@@ -173,6 +173,17 @@ pub fn run(ctx: &Ctx) -> i32 {
                 files = vec![("main.s".to_string(), t)];
                 acc.count("several_predecessors_family_programs", 1);
             }
+            if k % 8 == 4 {
+                // a snippet file that is included twice, in two contexts, so that each inclusion gets its own
+                // diagnostics on different lines of the same file (first: a value nobody reads at the end; second:
+                // a temporary read after a call at the start): within one file name the order is by position
+                let (t_a, t_b) = *rng.pick(&[("t0", "t1"), ("t3", "t4"), ("t5", "t2")]);
+                let pad = "    addi a0, a0, 0\n".repeat(rng.below(3));
+                let main = format!("# twice\nmain:\n    li {t_a}, 5\n    .include \"show.s\"\n    jal helper\n    .include \"show.s\"\n    mv a0, {t_b}\n    li a7, 1\n    ecall\n    li a7, 10\n    ecall\nhelper:\n    ret\n");
+                let show = format!("    mv a0, {t_a}\n    li a7, 1\n    ecall\n{pad}    li {t_b}, 3\n");
+                files = vec![("main.s".to_string(), main), ("show.s".to_string(), show)];
+                acc.count("snippet_included_twice_family_programs", 1);
+            }
             if k % 8 == 6 {
                 // a function that is also the first line of the program and reads a saved register / a
                 // temporary it never assigned: the program-level and the function-level lints look at
